@@ -104,6 +104,7 @@ type Engine struct {
 	initPkgs     map[string]bool
 	uninitReads  map[string]int
 	inInit       bool
+	forkSites    map[string]int
 }
 
 type ReplayInput struct {
@@ -164,6 +165,7 @@ type goPanic struct{ msg string } // a Go run-time panic raised by an instructio
 type needFork struct {
 	arity int
 	conds []*Term // optional per-branch constraints (len == arity) or nil
+	models []Model
 	kind  string
 	info  string
 }
@@ -171,6 +173,8 @@ type needFork struct {
 type pathEnd struct{ reason string }
 
 // decide returns the truth of cond on this path, forking if both are feasible.
+// s.model (when present) is a model of the path condition: the side it satisfies
+// needs no query.
 func (e *Engine) decide(s *State, cond *Term) bool {
 	if cond.IsConst() {
 		return cond.val == 1
@@ -187,14 +191,36 @@ func (e *Engine) decide(s *State, cond *Term) bool {
 		return e.ts.Eval(cond, e.replay.Model, memo) == 1
 	}
 	e.stats.Branches++
-	ft := e.feasible(s, cond)
-	ff := e.feasible(s, ncond)
+	var ft, ff Result = Unknown, Unknown
+	var mt, mf Model
+	known := false
+	if s.model != nil {
+		memo := map[int]uint64{}
+		if e.ts.Eval(cond, s.model, memo) == 1 {
+			ft, mt = Sat, s.model
+			ff, mf = e.feasibleM(s, ncond)
+		} else {
+			ff, mf = Sat, s.model
+			ft, mt = e.feasibleM(s, cond)
+		}
+		known = true
+	}
+	if !known {
+		ft, mt = e.feasibleM(s, cond)
+		ff, mf = e.feasibleM(s, ncond)
+	}
 	switch {
 	case ft != Unsat && ff != Unsat:
-		panic(needFork{arity: 2, conds: []*Term{cond, ncond}, kind: "branch"})
+		panic(needFork{arity: 2, conds: []*Term{cond, ncond}, models: []Model{mt, mf}, kind: "branch"})
 	case ft != Unsat:
+		if mt != nil {
+			s.model = mt
+		}
 		return true
 	case ff != Unsat:
+		if mf != nil {
+			s.model = mf
+		}
 		return false
 	}
 	// both infeasible: path condition itself is unsat (can happen after unknown)
@@ -202,14 +228,26 @@ func (e *Engine) decide(s *State, cond *Term) bool {
 }
 
 func (e *Engine) feasible(s *State, cond *Term) Result {
+	r, _ := e.feasibleM(s, cond)
+	return r
+}
+
+// feasibleM decides satisfiability of pc ∧ cond, returning a model when one was computed.
+func (e *Engine) feasibleM(s *State, cond *Term) (Result, Model) {
+	if s.model != nil {
+		memo := map[int]uint64{}
+		if e.ts.Eval(cond, s.model, memo) == 1 {
+			return Sat, s.model
+		}
+	}
 	key := [2]int{s.pcID(), cond.id}
 	if r, ok := e.feasCache[key]; ok {
-		return r
+		return r, nil
 	}
 	as := append(s.pc.terms(), cond)
-	r, _ := e.solver.Check(as, false)
+	r, m := e.solver.Check(as, true)
 	e.feasCache[key] = r
-	return r
+	return r, m
 }
 
 // choose returns a value in [0,n) from the decision list of the current instruction.
